@@ -4,6 +4,7 @@ import hashlib
 import importlib
 import json
 import multiprocessing
+import multiprocessing.connection
 import os
 import random
 import subprocess
@@ -246,19 +247,60 @@ def run_check(prop, tier='quick', seed=0, repo=None, jobs=None, only=None):
     os.environ['PYTHONDONTWRITEBYTECODE'] = '1'
     if repo:
         os.environ['VERIF_REPO'] = repo
-    results = []
-    mpctx = multiprocessing.get_context('spawn')
-    with concurrent.futures.ProcessPoolExecutor(
-            max_workers=min(jobs, max(1, len(cells))), mp_context=mpctx) as ex:
-        futs = [ex.submit(run_cell, prop, c, opts) for c in cells]
-        for f in futs:
-            try:
-                results.append(f.result())
-            except Exception as e:
-                results.append({'cell': None, 'error': 'worker died: %r' % e,
-                                'paths': 0, 'violations': [],
-                                'inconclusive': [], 'witnesses': []})
+    results = _run_cells(prop, cells, opts, min(jobs, max(1, len(cells))))
     return finish(prop, mod, tier, seed, repo, cells, results, t0)
+
+
+def _cell_worker(prop, cell, opts, conn):
+    try:
+        res = run_cell(prop, cell, opts)
+    except BaseException as e:
+        res = {'cell': cell, 'error': 'worker raised: %r' % (e,), 'paths': 0,
+               'violations': [], 'inconclusive': [], 'witnesses': []}
+    try:
+        conn.send(res)
+    finally:
+        conn.close()
+
+
+def _run_cells(prop, cells, opts, jobs):
+    """One process per cell, at most `jobs` at a time; a process that dies
+    (killed, out of memory) costs its own cell only."""
+    mpctx = multiprocessing.get_context('spawn')
+    results = [None] * len(cells)
+    pending = list(enumerate(cells))
+    running = {}
+    while pending or running:
+        while pending and len(running) < jobs:
+            i, c = pending.pop(0)
+            parent, child = mpctx.Pipe(duplex=False)
+            p = mpctx.Process(target=_cell_worker, args=(prop, c, opts, child))
+            p.start()
+            child.close()
+            running[i] = (p, parent, c)
+        ready = multiprocessing.connection.wait(
+            [v[1] for v in running.values()], timeout=5)
+        for i, (p, parent, c) in list(running.items()):
+            if parent in ready:
+                try:
+                    results[i] = parent.recv()
+                except (EOFError, OSError):
+                    results[i] = None
+                p.join(30)
+                parent.close()
+                del running[i]
+            elif not p.is_alive():
+                p.join()
+                parent.close()
+                del running[i]
+            else:
+                continue
+            if results[i] is None:
+                results[i] = {'cell': c, 'paths': 0, 'violations': [],
+                              'inconclusive': [], 'witnesses': [],
+                              'error': 'worker died (exit code %r)' %
+                                       (p.exitcode,)}
+    return results
 
 
 def finish(prop, mod, tier, seed, repo, cells, results, t0):
